@@ -7,6 +7,7 @@ import (
 	"fmt"
 	"go/token"
 	"go/types"
+	"strings"
 
 	"golang.org/x/tools/go/ssa"
 )
@@ -596,10 +597,106 @@ func ruleDevOrder(c *Ctx) []Obligation {
 	}
 	switch {
 	case okAppend && badAppend == "":
-		return []Obligation{ok(R, con, c.InstrPos(header.Instrs[0]), "every entry of the returned list is appended inside the walk over Deviation.Deviate")}
+		obs := []Obligation{ok(R, con, c.InstrPos(header.Instrs[0]), "every entry of the returned list is appended inside the walk over Deviation.Deviate")}
+		return append(obs, c.devOrderCursor(R, orderFn, inAST)...)
 	case badAppend != "":
 		return []Obligation{bad(R, con, badAppend, "entries are appended to the returned list in a loop other than the walk over the AST's deviate statements: statements of one kind are pulled together, so interleaved add/delete/replace statements are applied out of their written order")}
 	default:
 		return []Obligation{bad(R, con, c.InstrPos(header.Instrs[0]), "nothing is appended to the returned list inside the walk over the AST's deviate statements")}
 	}
+}
+
+// devOrderCursor: where the walk picks the entry of a deviate statement out of its kind's group with a per-kind cursor
+// kept in a local map (group[cursor[kind]]), the pick must be bounded by the group's length and the cursor must advance
+// in the same iteration; otherwise the second statement of a kind re-applies the first one's entry, or the pick runs
+// off the end of the group.
+func (c *Ctx) devOrderCursor(R string, fn *ssa.Function, body map[*ssa.BasicBlock]bool) []Obligation {
+	sameVal := func(a, b ssa.Value) bool {
+		if a == b {
+			return true
+		}
+		pa := AccessPath(a)
+		return pa == AccessPath(b) && pa != "" && !strings.HasPrefix(pa, "t")
+	}
+	lookupEq := func(a, b ssa.Value) bool {
+		la, ok1 := a.(*ssa.Lookup)
+		lb, ok2 := b.(*ssa.Lookup)
+		return ok1 && ok2 && !la.CommaOk && !lb.CommaOk && sameVal(la.X, lb.X) && sameVal(la.Index, lb.Index)
+	}
+	var obs []Obligation
+	n := 0
+	for _, b := range fn.Blocks {
+		if !body[b] {
+			continue
+		}
+		for _, in := range b.Instrs {
+			ia, isI := in.(*ssa.IndexAddr)
+			if !isI {
+				continue
+			}
+			cur, isL := ia.Index.(*ssa.Lookup)
+			if !isL || cur.CommaOk {
+				continue
+			}
+			if _, local := cur.X.(*ssa.MakeMap); !local {
+				continue
+			}
+			n++
+			// bounded
+			con := fmt.Sprintf("the cursor pick #%d stays inside its kind's group", n)
+			bounded := false
+			for _, g := range guardsAtPS(b) {
+				bo, isB := g.Cond.(*ssa.BinOp)
+				if !isB {
+					continue
+				}
+				ln, isC := bo.Y.(*ssa.Call)
+				if !isC {
+					continue
+				}
+				if bi, isBI := ln.Call.Value.(*ssa.Builtin); !isBI || bi.Name() != "len" {
+					continue
+				}
+				if !lookupEq(bo.X, cur) && bo.X != ssa.Value(cur) {
+					continue
+				}
+				if !(ln.Call.Args[0] == ia.X || lookupEq(ln.Call.Args[0], ia.X) || sameVal(ln.Call.Args[0], ia.X)) {
+					continue
+				}
+				if bo.Op == token.GEQ && !g.Branch || bo.Op == token.LSS && g.Branch {
+					bounded = true
+				}
+			}
+			if bounded {
+				obs = append(obs, ok(R, con, c.InstrPos(ia), "dominated by cursor < len(group)"))
+			} else {
+				obs = append(obs, bad(R, con, c.InstrPos(ia), "the entry is picked at the cursor without a dominating test that the cursor is below the length of the group: a deviation whose AST lists more deviate statements of a kind than were converted indexes past the end (panic)"))
+			}
+			// advanced
+			con = fmt.Sprintf("the cursor of pick #%d advances in the same iteration", n)
+			adv := false
+			for _, b2 := range fn.Blocks {
+				if !body[b2] || !(b2 == b || b.Dominates(b2)) {
+					continue
+				}
+				for _, in2 := range b2.Instrs {
+					mu, isM := in2.(*ssa.MapUpdate)
+					if !isM || mu.Map != cur.X || !sameVal(mu.Key, cur.Index) {
+						continue
+					}
+					if bo, isB := mu.Value.(*ssa.BinOp); isB && bo.Op == token.ADD && lookupEq(bo.X, cur) {
+						if k, okk := constInt(bo.Y); okk && k == 1 {
+							adv = true
+						}
+					}
+				}
+			}
+			if adv {
+				obs = append(obs, ok(R, con, c.InstrPos(ia), "cursor[kind]++ after the pick"))
+			} else {
+				obs = append(obs, bad(R, con, c.InstrPos(ia), "the per-kind cursor is not advanced after the pick: every later deviate statement of the same kind applies the first statement's arguments again and its own never"))
+			}
+		}
+	}
+	return obs
 }
